@@ -1057,6 +1057,40 @@ func (pc *pCtx) p1Context(s *pSite) {
 					}
 					bad = append(bad, o)
 				}
+				if kind == "emit" && strings.HasPrefix(m, "Error") && len(c.Args) == 2 && os["sub"] && !os["cb"] && !hasCbCtx {
+					// an error that a callback received (and stored) is delivered later from the subscribe body: it travels
+					// with the context it arrived with, not with the subscription context (what was attached upstream is lost)
+					if u, ok := c.Args[1].(*ssa.UnOp); ok && u.Op == token.MUL {
+						if al, ok := s.root(u.X).(*ssa.Alloc); ok {
+							for _, r := range *al.Referrers() {
+								_ = r
+							}
+							for g := range s.InTree {
+								if g == s.Subscribe {
+									continue
+								}
+								gHasCtx := false
+								for _, prm := range g.Params {
+									if isContextType(prm.Type()) {
+										gHasCtx = true
+									}
+								}
+								if !gHasCtx {
+									continue
+								}
+								for _, gb := range g.Blocks {
+									for _, gi := range gb.Instrs {
+										if st, ok := gi.(*ssa.Store); ok && s.root(st.Addr) == ssa.Value(al) {
+											if _, isParam := st.Val.(*ssa.Parameter); isParam {
+												bad = append(bad, "sub-instead-of-the-context-the-stored-error-arrived-with")
+											}
+										}
+									}
+								}
+							}
+						}
+					}
+				}
 				if kind == "subscribe" {
 					// a source must be subscribed with the subscriber context (or, for inner sources, the notification's)
 					if s.SubCtx == nil {
